@@ -106,6 +106,27 @@ def check_case(ctx, case):
     if m.any() and (np.max(np.abs(z4[m] - v12[m])) > 1e-6 * scale_v or np.max(np.abs(s4[m])) > 1e-6 * vd['sill']):
         ctx.violation('exact', 'zero nugget, targets on observations: estimates %r vs observed %r, variances %r' % (
             z4.tolist(), v12.tolist(), s4.tolist()), case0)
+    # the same relations on an instance that was used in the approximate mode before: after mode = 'exact' it is the
+    # exact interpolator again (nothing of the coarse semivariance table may survive the switch)
+    try:
+        ok5 = krig.build(case0, mode='estimate', precision=20)
+        try:
+            krig.run_transform(ok5, t0)
+        except Exception as e:
+            # the approximate mode itself is outside the property (and fails on some configurations)
+            ctx.reject('estimate-mode:' + type(e).__name__)
+            ok5 = None
+        if ok5 is None:
+            raise AttributeError('estimate mode unavailable')
+        with quiet():
+            ok5.mode = 'exact'
+        z6, s6, _, _ = krig.run_transform(ok5, t0)
+        reg('exact-after-estimate-mode')
+        if not rel_ok(z6, z4, scale_v, tol=1e-9) or not rel_ok(s6, s4, max(1e-12, vd['sill']), tol=1e-9):
+            ctx.violation('exact', 'after mode estimate -> exact on one instance: estimates %r variances %r, a fresh exact '
+                          'instance gives %r / %r' % (z6.tolist(), s6.tolist(), z4.tolist(), s4.tolist()), case0)
+    except (ValueError, AttributeError, TypeError) as e:
+        ctx.reject('mode-switch:' + type(e).__name__)
     if ctx.rng.random() < 0.2:
         c07.check_case(ctx, case)
 
